@@ -16,7 +16,8 @@ use evalexpr::{Context, ContextWithMutableVariables, DefaultNumericTypes, EmptyC
 pub const OTHERS: [&str; 7] = ["foo", "math::nope", "str", "Typeof", "random", "str::regex_matches", "str::regex_replace"];
 const KINDS: usize = 7;
 const SWITCH: usize = 3;
-const FORMS: usize = 12;
+const FORMS: usize = 13;
+const USERS: usize = 3;
 
 fn forms(n: &str) -> Vec<String> {
     vec![
@@ -32,6 +33,7 @@ fn forms(n: &str) -> Vec<String> {
         format!("{} = 1; {}(1)", n, n),
         format!("{} true", n),
         format!("{} 2.5", n),
+        format!("{}(true, x, y)", n),
     ]
 }
 
@@ -44,7 +46,7 @@ struct Matrix {
 
 impl Matrix {
     fn dims(&self) -> u64 {
-        (self.names.len() * KINDS * SWITCH * 2 * 2 * FORMS) as u64
+        (self.names.len() * KINDS * SWITCH * USERS * 2 * FORMS) as u64
     }
 }
 
@@ -64,8 +66,10 @@ impl Phase for Matrix {
         i /= FORMS;
         let var = i % 2 == 1;
         i /= 2;
-        let user = i % 2 == 1;
-        i /= 2;
+        // user function named n: absent, present (marker), present but failing
+        let user_mode = i % USERS;
+        let user = user_mode != 0;
+        i /= USERS;
         let switch = i % SWITCH;
         i /= SWITCH;
         let kind = i % KINDS;
@@ -80,7 +84,7 @@ impl Phase for Matrix {
             ["HashMapContext", "clone", "after clear_functions", "after clear", "clone, original modified afterwards", "RecordingContext", "fixed empty contexts"][kind],
             ["on", "off", "toggled twice (on)"][switch],
             name,
-            if user { "present" } else { "absent" },
+            ["absent", "present", "present but failing"][user_mode],
             name,
             if var { "present" } else { "absent" }
         );
@@ -93,7 +97,7 @@ impl Phase for Matrix {
             m.vars.insert(name.to_string(), RV::Int(77));
         }
         if user {
-            m.funs.insert(name.to_string(), FnModel::Marker);
+            m.funs.insert(name.to_string(), if user_mode == 1 { FnModel::Marker } else { FnModel::Fail });
         }
         m.funs.insert("m".into(), FnModel::Marker);
         m.builtins_off = off;
@@ -216,7 +220,7 @@ impl Phase for Matrix {
                 (g, ev)
             };
             out.eval();
-            out.nontrivial(&format!("{}|{}|{}|{}|{}|{:?}", src, kind, switch, user, var, entry));
+            out.nontrivial(&format!("{}|{}|{}|{}|{}|{:?}", src, kind, switch, user_mode, var, entry));
             let ok = got.lifted().map_or(false, |l| outcome_matches(&rr.result, &l));
             if !ok {
                 out.violation("resolution/result", format!("{}  entry {:?}", desc, entry), exec::show_ref_result(&rr.result), got.show());
